@@ -24,11 +24,13 @@ struct Ctx {
     std::string& h = vh::G().history;
     h.assign(header); h += s; h += '\n';
   }
-  void violation(const std::string& check, const std::string& sig, const std::string& detail) {
+  // detail: callable returning the text; only rendered for the first occurrence of (check, sig) in the case
+  template <class Detail>
+  void violation(const std::string& check, const std::string& sig, Detail&& detail) {
     any_violation = true;
     c.count("violations.observed");
     if (!reported.insert(check + "|" + sig).second) { c.count("violations.same_signature_not_rereported"); return; }
-    c.violation(check, sig, detail);
+    c.violation(check, sig, detail());
   }
 };
 
@@ -83,8 +85,7 @@ inline bool compare_with_model(Ctx& X, const std::string& who, const std::string
   std::sort(off.begin(), off.end()); std::sort(dg.begin(), dg.end());
   c.count("cmp." + who + ".orientation");
   if (reversed || nonfinite) {
-    X.violation(who + ".pair_orientation", sig + (reversed ? ",death_before_birth" : ",non_finite_pair"),
-                "input " + input_txt + " emitted " + oracle::show(off) + " expected " + oracle::show(E.offdiag));
+    X.violation(who + ".pair_orientation", sig + (reversed ? ",death_before_birth" : ",non_finite_pair"), [&] { return "input " + input_txt + " emitted " + oracle::show(off) + " expected " + oracle::show(E.offdiag); });
     ok = false;
   }
   c.count("cmp." + who + ".offdiag_multiset");
@@ -92,9 +93,8 @@ inline bool compare_with_model(Ctx& X, const std::string& who, const std::string
     auto missing = ms_minus(E.offdiag, off), extra = ms_minus(off, E.offdiag);
     int dim = !missing.empty() ? missing[0].dim : extra[0].dim;
     std::string s = sig + ",dim" + vh::str(dim) + (missing.empty() ? ",extra_interval" : extra.empty() ? ",missing_interval" : ",wrong_interval");
-    X.violation(who + ".offdiag_multiset", s,
-                "input " + input_txt + " emitted(non-zero-length) " + oracle::show(off) + " expected " + oracle::show(E.offdiag) +
-                " missing " + oracle::show(missing) + " extra " + oracle::show(extra));
+    X.violation(who + ".offdiag_multiset", s, [&] { return "input " + input_txt + " emitted(non-zero-length) " + oracle::show(off) + " expected " + oracle::show(E.offdiag) +
+                " missing " + oracle::show(missing) + " extra " + oracle::show(extra); });
     ok = false;
   }
   c.count("cmp." + who + ".diag_subset");
@@ -102,15 +102,14 @@ inline bool compare_with_model(Ctx& X, const std::string& who, const std::string
   if (!dg.empty()) {
     auto bad = ms_minus(dg, E.diag);
     if (!bad.empty()) {
-      X.violation(who + ".diag_subset", sig + ",dim" + vh::str(bad[0].dim),
-                  "input " + input_txt + " emitted zero-length pairs " + oracle::show(dg) + " but the filtration only has " + oracle::show(E.diag));
+      X.violation(who + ".diag_subset", sig + ",dim" + vh::str(bad[0].dim), [&] { return "input " + input_txt + " emitted zero-length pairs " + oracle::show(dg) + " but the filtration only has " + oracle::show(E.diag); });
       ok = false;
     }
   }
   if (have_ret) {
     c.count("cmp." + who + ".global_minimum");
     if (!(ret == E.minimum)) {
-      X.violation(who + ".global_minimum", sig, "input " + input_txt + " returned minimum " + vh::str(ret) + " expected " + vh::str(E.minimum));
+      X.violation(who + ".global_minimum", sig, [&] { return "input " + input_txt + " returned minimum " + vh::str(ret) + " expected " + vh::str(E.minimum); });
       ok = false;
     }
   }
@@ -182,7 +181,7 @@ bool check_rectangle(Ctx& X, int r, int cN, const std::vector<double>& vals, con
     for (auto& p : p1) range_ok = range_ok && in_range(p.first) && in_range(p.second);
     c.count("cmp.rect.indices.range");
     if (!range_ok) {
-      X.violation("rect.indices.range", sigbase, "input " + input_txt + " emitted an index outside [0," + vh::str(n) + ")");
+      X.violation("rect.indices.range", sigbase, [&] { return "input " + input_txt + " emitted an index outside [0," + vh::str(n) + ")"; });
       return false;
     }
     std::vector<Interval> em;
@@ -198,7 +197,7 @@ bool check_rectangle(Ctx& X, int r, int cN, const std::vector<double>& vals, con
     std::sort(b0.begin(), b0.end()); std::sort(d1.begin(), d1.end());
     c.count("cmp.rect.indices.unique");
     if (std::adjacent_find(b0.begin(), b0.end()) != b0.end() || std::adjacent_find(d1.begin(), d1.end()) != d1.end()) {
-      X.violation("rect.indices.unique", sigbase, "input " + input_txt + " the same cell index is the birth of two 0-classes or the death of two 1-classes");
+      X.violation("rect.indices.unique", sigbase, [&] { return "input " + input_txt + " the same cell index is the birth of two 0-classes or the death of two 1-classes"; });
       ok = false;
     }
   }
@@ -245,14 +244,14 @@ bool check_line(Ctx& X, const Range& in, Compare lt, Rank rank, IsInf is_inf, co
   const std::string sig = "line,cmp=" + cmpname;
   if (ranks.empty()) {
     c.count("cmp.line.empty_input");
-    if (!calls.empty()) { X.violation("line.empty_input", sig, "output functor called on an empty input"); return false; }
+    if (!calls.empty()) { X.violation("line.empty_input", sig, [&] { return "output functor called on an empty input"; }); return false; }
     return true;
   }
   Expected E = expected_of(0, (int)ranks.size(), ranks);
   // convention: the last call is (minimum, infinity); no other call has an infinite death
   c.count("cmp.line.last_call_is_minimum");
   if (calls.empty() || !is_inf(calls.back().second)) {
-    X.violation("line.last_call_is_minimum", sig + ",no_final_infinite_call", "input " + input_txt + ": last call is not (min, inf)");
+    X.violation("line.last_call_is_minimum", sig + ",no_final_infinite_call", [&] { return "input " + input_txt + ": last call is not (min, inf)"; });
     return false;
   }
   double ret = rank(calls.back().first);
